@@ -51,6 +51,9 @@ func main() {
 	st := lib.NewStats("C30", "real regnet BlockChain + DPoS State (fixture) with the State's guard heights lowered (CRCOnlyDPOSHeight 1-3, RevertToPOWStartHeight 7-9): trunk of 8-14 blocks, one fork of 1-11 blocks starting 1-10 below the tip (across LIH), consensus mode per block: all DPoS / all PoW / one switch either way (with or without the resume condition), optionally one context-invalid block in the fork, fork delivered in order or as orphans first; plus persistent forks: DPoS then PoW (LIH frozen), a side chain forking at or up to 3 below LIH that keeps growing block by block until it is 3+ higher than the trunk. nontrivial = history with LIH > 0 and a fork heavier than the trunk; distinct by observation log")
 	sh := &lib.Shards{Dir: run.Out, Imports: "From ELA Require Import corr.C30_corr.", CaseType: "C30_corr.case",
 		Mismatch: "C30_corr.mismatches", Scope: "Z", PerShard: 8}
+	if run.Thorough() {
+		sh.PerShard = 40
+	}
 	id := 0
 
 	doHist := func(h *chaincase.Hist) {
@@ -161,13 +164,13 @@ func main() {
 		doHist(mk(name, bs, 1, rs, order(len(bs))))
 	}
 	persistent("frozen-lih-persistent-fork", 10, 3, 2, 7)
-	for i := 0; i < run.N(4, 150); i++ {
+	for i := 0; i < run.N(4, 100); i++ {
 		r := rng.Fork()
 		persistent(fmt.Sprintf("persist-%d", i), r.Range(9, 14), r.Range(1, 5), r.Range(0, 3), uint32(r.Range(7, 8)))
 	}
 
 	// ---- generated
-	n := run.N(40, 1200)
+	n := run.N(40, 600)
 	for i := 0; i < n; i++ {
 		r := rng.Fork()
 		trunk := r.Range(8, 14)
